@@ -480,6 +480,8 @@ func (option *Option) call(value *string) error {
 
 	if value == nil {
 		retval = option.value.Call(nil)
+	} else if option.value.Type().NumIn() == 0 {
+		return newErrorf(ErrNoArgumentForBool, "flag `%s' cannot have an argument", option)
 	} else {
 		tp := option.value.Type().In(0)
 
